@@ -147,7 +147,6 @@ let switches : (string * (flags -> flags)) list = [
   ("cmp-canonize", (fun f -> { f with f_canon = false }));
   ("namespace-axis", (fun f -> { f with f_nsaxis = false }));
   ("text-nodes", (fun f -> { f with f_text = false }));
-  ("root-matches-star", (fun f -> { f with f_rootstar = false }));
   ("predicate-position-global", (fun f -> { f with f_predglobal = false }));
   ("string-value-indent", (fun f -> { f with f_strval = false }));
   ("string-bytes", (fun f -> { f with f_bytes = false }));
